@@ -25,6 +25,7 @@ def F(p, size, seed):
 def gen_cases(tier, seed):
     n = 320 if tier == "quick" else 8000
     r = random.Random(seed * 32452867 + 13)
+    yield from gen_deep(tier, random.Random(seed * 7 + 13))
     for i in range(n):
         driver = ["parfile", "parblock"][i % 2]
         spec = [{"p": "src", "k": "d"}, F("src/a", 100, r.randrange(1, 1 << 30)), F("src/b", 70000, r.randrange(1, 1 << 30)),
@@ -101,9 +102,66 @@ def gen_cases(tier, seed):
             spec.append({"p": "srclink", "k": "l", "target": r.choice(["src", "@ROOT@/src"])})
             classes.add("toplevel-link")
             topdst = r.choice(["absent", "existing-dir", "existing-dir"])
-        yield {"into_dest": into_dest, "topdst": topdst, "top": top, "spec": spec, "driver": driver, "classes": sorted(classes), "bad": bad, "maxchain": maxchain, "fs": "ext4",
+        yield {"deep": None, "into_dest": into_dest, "topdst": topdst, "top": top, "spec": spec, "driver": driver, "classes": sorted(classes), "bad": bad, "maxchain": maxchain, "fs": "ext4",
                "args": ["--driver", driver, "-w", str(r.choice([0, 1, 2, 4]))] + r.choice([[], [], ["--fsync"], ["--no-perms"], ["--gitignore"], ["--reflink", "never"], ["--no-progress"], ["--block-size", "4096"], ["-n"], ["--backup", "numbered"], ["--ownership"], ["-v"]])
                        + ["-r", "-L", "src", "dst"]}
+
+
+def gen_deep(tier, r):
+    """-L from a working directory so deep that absolute paths of the deepest entries exceed PATH_MAX while relative ones do not."""
+    for i in range(8 if tier == "quick" else 120):
+        driver = ["parfile", "parblock"][i % 2]
+        comp = "d" * r.choice([200, 240])
+        inner = "/".join(["e" * 200] * r.choice([2, 3]))
+        spec = [{"p": "src", "k": "d"}, F("src/a", 100, r.randrange(1, 1 << 30)), {"p": "src/top-link", "k": "l", "target": "a"}]
+        cur = "src"
+        for c in inner.split("/"):
+            cur += "/" + c
+            spec.append({"p": cur, "k": "d"})
+        spec += [F(cur + "/real.txt", 77, r.randrange(1, 1 << 30)), {"p": cur + "/link.txt", "k": "l", "target": "real.txt"},
+                 {"p": cur + "/dlink", "k": "l", "target": "../" * inner.count("/") + "../a"}]
+        yield {"deep": [comp] * (3850 // (len(comp) + 1)), "spec": spec, "driver": driver, "classes": ["deep-cwd"], "bad": False, "maxchain": 0, "fs": "ext4", "into_dest": False, "top": False, "topdst": None,
+               "args": ["--driver", driver, "-w", str(r.choice([1, 4]))] + r.choice([[], ["--no-progress"], ["--fsync"]]) + ["-r", "-L", "src", "dst"]}
+
+
+def run_deep(case):
+    res = {"evals": [], "viol": [], "inconc": [], "counters": {}}
+    with core.Sandbox(case["fs"], "c13") as sb:
+        old = os.getcwd()
+        try:
+            os.chdir(sb.root)
+            for c in case["deep"]:
+                os.mkdir(c)
+                os.chdir(c)
+            deep = os.getcwd() if False else None
+            tree.materialize(".", case["spec"])
+            exp = resolved_model(".", "src")
+            # (the process is started from inside the deep directory; the path to it is itself below PATH_MAX)
+            run = core.run_plain(core.xcp_argv(case["args"]), os.path.join(sb.root, *case["deep"]))
+            if run.verdict != "exited":
+                res["inconc"].append("run-" + run.verdict)
+                return res
+            tag = "deep working directory (%d characters), driver=%s args=%s" % (sum(len(c) + 1 for c in case["deep"]), case["driver"], " ".join(case["args"]))
+            outcome = "exit0" if run.exit0 else "nonzero"
+            if run.exit0:
+                post = tree.snapshot(b"dst")
+                for p, rec in sorted(post.items()):
+                    if rec["k"] == "l":
+                        res["viol"].append({"sig": "%s:link-in-destination" % case["driver"], "what": "destination contains symbolic link %r -> %r; %s" % (p[-60:], rec.get("link"), tag)})
+                        break
+                for p, e in sorted(exp.items()):
+                    d = post.get(p)
+                    if d is None or d["k"] != e[0] or (e[0] == "f" and d.get("sha") != e[1]):
+                        res["viol"].append({"sig": "%s:deep:%s" % (case["driver"], "missing" if d is None else "differs"), "what": "%r (%s) is %s in the destination; %s" % (p[-60:], e[0], "absent" if d is None else d["k"], tag)})
+                        break
+                res["counters"]["entries-compared"] = len(exp)
+            res["counters"]["deep-cwd-" + outcome] = 1
+            res["evals"].append({"key": [case["driver"], ["deep-cwd"], "chain<=8", False, outcome],
+                                 "sample": {"args": case["args"], "cwd_length": sum(len(c) + 1 for c in case["deep"]), "exit": run.status,
+                                            "first_error": ([l for l in run.stderr.splitlines() if "rror" in l] or [""])[0][-160:]}})
+        finally:
+            os.chdir(old)
+    return res
 
 
 def resolved_model(root, src):
@@ -128,6 +186,8 @@ def resolved_model(root, src):
 
 
 def run_case(case):
+    if case.get("deep"):
+        return run_deep(case)
     res = {"evals": [], "viol": [], "inconc": [], "counters": {}}
     with core.Sandbox(case["fs"], "c13") as sb:
         root = sb.root
